@@ -15,9 +15,9 @@ import (
 
 func init() {
 	register(&Check{ID: "C09", Run: runC09, Expl: oblig.Explanation{
-		Text: "Static shutdown-discipline check. (R1) closed-flag discipline of the Writer: every site that creates a partition writer (whose sender is counted by the WaitGroup and only stopped by Close) holds Writer.mutex and is dominated by a read of w.closed found false under that mutex; enter() adds to the WaitGroup in the section that tested closed; Close sets closed and closes every partition writer under the mutex and waits after releasing it. (R2) WaitGroup pairing: enter/leave, spawn (Add before go, Done deferred), Reader.start (join.Add before the go statements, Done deferred), NewConsumerGroup. (R3) goroutine census: every go statement of the root package runs a body listed in the reviewed table together with its termination mechanism; a new goroutine body is a violation; the mechanism is re-verified structurally where it is local (WaitGroup Done, context arm, buffered channel, range over a closed channel). (R4) every blocking operation reachable on the calling goroutine from WriteMessages, FetchMessage, CommitMessages and Transport.RoundTrip is a select with an arm on a context's Done channel, except the frozen, reasoned exceptions. (R5) after Close: WriteMessages returns io.ErrClosedPipe iff enter() fails; FetchMessage returns io.EOF iff msgs is closed; Reader.Close closes msgs at most once, after join.Wait() and <-done. (R6) leaving on close: Reader.run defers cg.Close(); ConsumerGroup.Close closes done once and waits; run() calls leaveGroup on the closed arm; coordinator connections are closed on every path; the result of releaseConn is never discarded. Not decided: bounded time, promptness, 'no request after Close' (timing/histories).",
-		Rule: "one obligation per creation site, pairing, go statement, blocking operation and exit path",
-		Trusted: []string{"go/ssa, static call graph", "must-lockset of C10", "reviewed goroutine table (internal/rules/c09.go)"},
+		Text:        "Static shutdown-discipline check. (R1) closed-flag discipline of the Writer: every site that creates a partition writer (whose sender is counted by the WaitGroup and only stopped by Close) holds Writer.mutex and is dominated by a read of w.closed found false under that mutex; enter() adds to the WaitGroup in the section that tested closed; Close sets closed and closes every partition writer under the mutex and waits after releasing it. (R2) WaitGroup pairing: enter/leave, spawn (Add before go, Done deferred), Reader.start (join.Add before the go statements, Done deferred), NewConsumerGroup. (R3) goroutine census: every go statement of the root package runs a body listed in the reviewed table together with its termination mechanism; a new goroutine body is a violation; the mechanism is re-verified structurally where it is local (WaitGroup Done, context arm, buffered channel, range over a closed channel). (R4) every blocking operation reachable on the calling goroutine from WriteMessages, FetchMessage, CommitMessages and Transport.RoundTrip is a select with an arm on a context's Done channel, except the frozen, reasoned exceptions. (R5) after Close: WriteMessages returns io.ErrClosedPipe iff enter() fails; FetchMessage returns io.EOF iff msgs is closed; Reader.Close closes msgs at most once, after join.Wait() and <-done. (R6) leaving on close: Reader.run defers cg.Close(); ConsumerGroup.Close closes done once and waits; run() calls leaveGroup on the closed arm; coordinator connections are closed on every path; the result of releaseConn is never discarded. Not decided: bounded time, promptness, 'no request after Close' (timing/histories).",
+		Rule:        "one obligation per creation site, pairing, go statement, blocking operation and exit path",
+		Trusted:     []string{"go/ssa, static call graph", "must-lockset of C10", "reviewed goroutine table (internal/rules/c09.go)"},
 		Assumptions: []string{"network operations are bounded by the configured deadlines"},
 	}})
 }
@@ -52,7 +52,7 @@ func c09ClosedFlag(p *load.Program, r *oblig.Report) {
 				if iff == nil {
 					continue
 				}
-				cond := iff.Cond
+				cond := an.CondOf(iff)
 				neg := false
 				if u, ok := cond.(*ssa.UnOp); ok && u.Op == token.NOT {
 					cond, neg = u.X, true
@@ -97,7 +97,7 @@ func c09ClosedFlag(p *load.Program, r *oblig.Report) {
 			}
 			for d, child := ins.Block().Idom(), ins.Block(); d != nil; d, child = d.Idom(), d {
 				iff, _ := an.IfCond(d)
-				if iff != nil && isLoadOfField(iff.Cond, "Writer", "closed") && (d.Succs[1] == child || d.Succs[1].Dominates(child)) {
+				if iff != nil && isLoadOfField(an.CondOf(iff), "Writer", "closed") && (d.Succs[1] == child || d.Succs[1].Dominates(child)) {
 					ok = true
 				}
 			}
@@ -167,7 +167,7 @@ func c09Pairing(p *load.Program, r *oblig.Report) {
 			iff, _ := an.IfCond(enterCall.Block())
 			if iff != nil {
 				succ := enterCall.Block().Succs[0]
-				if u, isU := iff.Cond.(*ssa.UnOp); isU && u.Op == token.NOT {
+				if u, isU := an.CondOf(iff).(*ssa.UnOp); isU && u.Op == token.NOT {
 					succ = enterCall.Block().Succs[1]
 				}
 				for _, ins := range succ.Instrs {
@@ -194,7 +194,7 @@ func c09Pairing(p *load.Program, r *oblig.Report) {
 				goIns = ins
 				if mc, ok := g.Call.Value.(*ssa.MakeClosure); ok {
 					cl := mc.Fn.(*ssa.Function)
-					for _, i2 := range cl.Blocks[0].Instrs {
+					for _, i2 := range an.Blocks(cl)[0].Instrs {
 						if d, ok := i2.(*ssa.Defer); ok && d.Call.StaticCallee() != nil && an.ShortFunc(d.Call.StaticCallee()) == "(*sync.WaitGroup).Done" {
 							doneDeferred = true
 						}
@@ -231,7 +231,7 @@ func c09Pairing(p *load.Program, r *oblig.Report) {
 			}
 			done := false
 			if cl != nil && len(cl.Blocks) > 0 {
-				for _, i2 := range cl.Blocks[0].Instrs {
+				for _, i2 := range an.Blocks(cl)[0].Instrs {
 					if d, ok := i2.(*ssa.Defer); ok && d.Call.StaticCallee() != nil && an.ShortFunc(d.Call.StaticCallee()) == "(*sync.WaitGroup).Done" {
 						done = true
 					}
@@ -269,20 +269,20 @@ func c09Pairing(p *load.Program, r *oblig.Report) {
 
 // goroutine bodies of the root package and how each terminates
 var goTable = map[string]string{
-	"(*kafka.Writer).spawn$1":                   "counted by Writer.group; body is the partition sender (ends when its queue is closed by Close) or a batch timer (ends on timer/ready)",
-	"(*kafka.Reader).start$1":                   "counted by Reader.join; (*reader).run loops until its context is cancelled by start()/unsubscribe()/Close()",
-	"(*kafka.Reader).run":                       "group loop: returns when cg.Next fails with the reader's stop context; Close waits on r.done",
-	"(*kafka.Reader).readLag":                   "lag poller: select on ticker and ctx.Done() (stctx, cancelled by Close)",
-	"(*kafka.Reader).ReadLag$1":                 "one-shot lookup bounded by the caller's context deadline; results go to buffered channels",
-	"(*kafka.Generation).Start$1":               "generation function wrapper: accounted by routines/joined, context ends with the generation (C15)",
-	"dynamic:fn":                                "function started on an already closed generation: its context is already cancelled (documented edge case)",
-	"kafka.NewConsumerGroup$1":                  "group run loop: counted by ConsumerGroup.wg, ends when done is closed",
-	"(*kafka.connPool).discover":                "metadata refresher: select arm on ctx.Done() (pool context, cancelled when the pool is released)",
-	"(*kafka.connGroup).grabConnOrConnect$1":    "dial goroutine: bounded by the dial deadline; hands the conn over or releases/closes it when the waiter is gone",
-	"(*kafka.conn).run":                         "connection loop: ranges over reqs, ends when the conn is closed (idle timeout, pool release) or an exchange fails; closes the socket on exit",
-	"(*kafka.Dialer).connectTLS$1":              "TLS handshake: bounded by the connection being closed on context end",
-	"(*kafka.Dialer).DialContext$1":             "unused",
-	"(*kafka.Dialer).lookupHost$1":              "resolver lookup helper bounded by ctx",
+	"(*kafka.Writer).spawn$1":                "counted by Writer.group; body is the partition sender (ends when its queue is closed by Close) or a batch timer (ends on timer/ready)",
+	"(*kafka.Reader).start$1":                "counted by Reader.join; (*reader).run loops until its context is cancelled by start()/unsubscribe()/Close()",
+	"(*kafka.Reader).run":                    "group loop: returns when cg.Next fails with the reader's stop context; Close waits on r.done",
+	"(*kafka.Reader).readLag":                "lag poller: select on ticker and ctx.Done() (stctx, cancelled by Close)",
+	"(*kafka.Reader).ReadLag$1":              "one-shot lookup bounded by the caller's context deadline; results go to buffered channels",
+	"(*kafka.Generation).Start$1":            "generation function wrapper: accounted by routines/joined, context ends with the generation (C15)",
+	"dynamic:fn":                             "function started on an already closed generation: its context is already cancelled (documented edge case)",
+	"kafka.NewConsumerGroup$1":               "group run loop: counted by ConsumerGroup.wg, ends when done is closed",
+	"(*kafka.connPool).discover":             "metadata refresher: select arm on ctx.Done() (pool context, cancelled when the pool is released)",
+	"(*kafka.connGroup).grabConnOrConnect$1": "dial goroutine: bounded by the dial deadline; hands the conn over or releases/closes it when the waiter is gone",
+	"(*kafka.conn).run":                      "connection loop: ranges over reqs, ends when the conn is closed (idle timeout, pool release) or an exchange fails; closes the socket on exit",
+	"(*kafka.Dialer).connectTLS$1":           "TLS handshake: bounded by the connection being closed on context end",
+	"(*kafka.Dialer).DialContext$1":          "unused",
+	"(*kafka.Dialer).lookupHost$1":           "resolver lookup helper bounded by ctx",
 }
 
 func c09Census(p *load.Program, r *oblig.Report) {
@@ -613,7 +613,7 @@ func c09AfterClose(p *load.Program, r *oblig.Report) {
 				continue
 			}
 			fb := call.Block().Succs[1]
-			if u, isU := iff.Cond.(*ssa.UnOp); isU && u.Op == token.NOT {
+			if u, isU := an.CondOf(iff).(*ssa.UnOp); isU && u.Op == token.NOT {
 				fb = call.Block().Succs[0]
 			}
 			if ret, isR := fb.Instrs[len(fb.Instrs)-1].(*ssa.Return); isR && strings.Contains(argDesc(an.RetVal(ret, 0)), "ErrClosedPipe") {
@@ -646,7 +646,7 @@ func c09AfterClose(p *load.Program, r *oblig.Report) {
 				if iff == nil {
 					continue
 				}
-				if strings.Contains(argDesc(iff.Cond), "select#") || strings.Contains(argDesc(iff.Cond), "recv-ok") {
+				if strings.Contains(argDesc(an.CondOf(iff)), "select#") || strings.Contains(argDesc(an.CondOf(iff)), "recv-ok") {
 					if d.Succs[1] == child || d.Succs[1].Dominates(child) {
 						ok = true
 					}
@@ -666,7 +666,7 @@ func c09AfterClose(p *load.Program, r *oblig.Report) {
 					closeMsgs = ins
 					for _, pred := range ins.Block().Preds {
 						iff, _ := an.IfCond(pred)
-						if iff != nil && strings.HasSuffix(argDesc(iff.Cond), ".closed") {
+						if iff != nil && strings.HasSuffix(argDesc(an.CondOf(iff)), ".closed") {
 							guarded = true
 						}
 					}
@@ -747,12 +747,12 @@ func c09LeaveOnClose(p *load.Program, r *oblig.Report) {
 	if cgr != nil && lg != nil {
 		// on the ErrGroupClosed arm: leaveGroup(memberID) then return
 		ok := false
-		for _, b := range cgr.Blocks {
+		for _, b := range an.Blocks(cgr) {
 			iff, _ := an.IfCond(b)
 			if iff == nil {
 				continue
 			}
-			if c, isC := iff.Cond.(*ssa.Call); isC && c.Call.StaticCallee() != nil && c.Call.StaticCallee().Name() == "Is" && strings.Contains(argDesc(c.Call.Args[1]), "ErrGroupClosed") {
+			if c, isC := an.CondOf(iff).(*ssa.Call); isC && c.Call.StaticCallee() != nil && an.RefFuncName(c.Call.StaticCallee()) == "Is" && strings.Contains(argDesc(c.Call.Args[1]), "ErrGroupClosed") {
 				tb := b.Succs[0]
 				hasLeave, hasRet := false, false
 				for _, ins := range tb.Instrs {
